@@ -417,7 +417,7 @@ func (x *c14Exec) sessStep(op c14Op) {
 			switch {
 			case len(fs) == 0:
 			case !x.conns[c].persistent && c%2 == 1:
-				x.sessStep(c14Op{K: "disc", C: c})
+				x.sessStep(c14EndOp(c, len(x.hist)+c, nil, fs))
 			default:
 				for len(fs) > 0 {
 					if len(fs) >= 2 && len(fs)%2 == 0 {
@@ -665,7 +665,7 @@ func c14GenSessHistory(rng *rand.Rand, persistent []bool, nOps int) []c14Op {
 			ops = append(ops, c14Op{K: "mixed-sub", C: c, F: fs, Q: q, N: order + ":" + class}) // assumed reading: rejected
 		case !persistent[c]:
 			if x < 90 {
-				emit(c14Op{K: "disc", C: c})
+				emit(c14EndOp(c, k+4*c+3*len(held)+len(pool), pool, held))
 			} else {
 				emit(c14Op{K: "sub", C: c, F: []string{pick()}, Q: []int{rng.Intn(2)}})
 			}
@@ -708,7 +708,7 @@ func c14GenSessHistory(rng *rand.Rand, persistent []bool, nOps int) []c14Op {
 func TestVerif_C14_Sessions(t *testing.T) {
 	r := kit.Start(t, "C14")
 	defer r.Finish()
-	r.Rule("histories with session persistence: 3-4 clients of which 1-3 connect with cleanSession=false; operations of the seeded histories plus SUBSCRIBE / UNSUBSCRIBE packets mixing 1-2 well-formed filters (held / not held / held with the other QoS) with one malformed filter at any position, and session restores: disconnect+reconnect (session decoded from the store), offline interval during which the other clients go on, takeover of the own connection (session of the session map; superseded connection torn down before / after the re-subscription); " +
+	r.Rule("histories with session persistence: 3-4 clients of which 1-3 connect with cleanSession=false; operations of the seeded histories plus SUBSCRIBE / UNSUBSCRIBE packets mixing 1-2 well-formed filters (held / not held / held with the other QoS) with one malformed filter at any position, and session restores: disconnect+reconnect (session decoded from the store), offline interval during which the other clients go on, takeover of the own connection (session of the session map; superseded connection torn down before / after the re-subscription); the disconnects of the cleanSession=true clients cycle through the ways a connection ends (cleanSession=false clients: plain end only); " +
 		"systematic prefix: every filter to depth 2 x {plain UNSUBSCRIBE, [w,m], [m,w]} x {reconnect, offline interval, takeover}; seeded: 22 operations + one restore per persistent client + teardown + restore of the empty sessions. " +
 		"Oracle as in the other parts (after every step all 119 topics: routed set = clients with a live matching subscription, QoS of an own matching subscription); a restore changes no subscription; the effect of a mixed packet on its own well-formed filters is observed right after the packet and adopted (only 'UNSUBSCRIBE creates nothing / keeps the QoS, SUBSCRIBE removes nothing / sets the old or the requested QoS' is demanded there), everything later is judged; distinct = (operation kind x class x followed outcome x persistent) and (restore kind x live filters x kinds of operations that dropped a filter since the last restore). " + c14Rule)
 	r.Assume("a client keeps its cleanSession flag for all its connections of a history; a session is decoded from the store only after every asynchronous Session.store() hand-over has been written (barrier through the store loop's channel + goroutine dump; the timing of the persistence belongs to C16); the routing row of a cleanSession=false client without a connection is not judged; QoS 0 and 1")
